@@ -175,14 +175,21 @@ fn decorate(f: &mut gherkin::Feature, decor: &str) {
 
 impl Objects {
     pub fn new(specs: &[FeatureSpec]) -> Self {
-        Self::construct(specs, None)
+        Self::construct(specs, None, false)
     }
 
     pub fn new_decorated(specs: &[FeatureSpec], cdata: bool) -> Self {
-        Self::construct(specs, Some(if cdata { DECOR_CDATA } else { DECOR }))
+        Self::construct(specs, Some(if cdata { DECOR_CDATA } else { DECOR }), false)
     }
 
-    fn construct(specs: &[FeatureSpec], deco: Option<&str>) -> Self {
+    /// All features are displayed under the same name (the keys stay their
+    /// ids): what tells them apart in a report is their path or, for path-less
+    /// features, the ordinal the libtest writer gives them.
+    pub fn new_twin_features(specs: &[FeatureSpec]) -> Self {
+        Self::construct(specs, None, true)
+    }
+
+    fn construct(specs: &[FeatureSpec], deco: Option<&str>, twin: bool) -> Self {
         let mut feats = HashMap::new();
         let mut rules = HashMap::new();
         let mut scens = HashMap::new();
@@ -193,6 +200,10 @@ impl Objects {
             // keys of the maps below stay the plain names
             if let Some(d) = deco {
                 decorate(&mut f, d);
+            }
+            let fkey = spec.name.clone();
+            if twin {
+                f.name = "Same name".to_owned();
             }
             let fb: Vec<gherkin::Step> = f
                 .background
@@ -206,7 +217,7 @@ impl Objects {
                 scens.insert(
                     plain_name(&s.name),
                     (
-                        plain_name(&f.name),
+                        fkey.clone(),
                         String::new(),
                         Source::new(s.clone()),
                         steps,
@@ -228,7 +239,7 @@ impl Objects {
                     scens.insert(
                         plain_name(&s.name),
                         (
-                            plain_name(&f.name),
+                            fkey.clone(),
                             plain_name(&r.name),
                             Source::new(s.clone()),
                             steps,
@@ -237,7 +248,7 @@ impl Objects {
                 }
                 rules.insert(plain_name(&r.name), Source::new(r.clone()));
             }
-            feats.insert(plain_name(&f.name), Source::new(f));
+            feats.insert(fkey.clone(), Source::new(f));
         }
         Self { specs: specs.to_vec(), feats, rules, scens, nsteps, nrules }
     }
@@ -618,6 +629,21 @@ pub fn run_pipeline<W: World + Debug + 'static>(
             rep,
             items,
         ),
+        // the statistics-discarding writer on the LEFT, the real one on the right
+        "tdl" => wrap_and_run(
+            &|| {
+                Tee::new(
+                    writer::discard::Stats::wrap(
+                        writer::AssertNormalized::new(RecW::default()),
+                    ),
+                    sn::<W>(),
+                )
+            },
+            &cli::Compose { left: cli::Empty, right: cli::Empty },
+            fos,
+            rep,
+            items,
+        ),
         "orl" | "orr" => {
             let left = base == "orl";
             wrap_and_run(
@@ -976,6 +1002,11 @@ pub fn replay_comb(objs: &Objects, inp: &[Value]) -> Value {
     two!(
         "tee",
         |a: RecW, b: RecW| Tee::new(a, writer::discard::Stats::wrap(b)),
+        drive_with_writes
+    );
+    two!(
+        "tee_left_discarded",
+        |a: RecW, b: RecW| Tee::new(writer::discard::Stats::wrap(a), b),
         drive_with_writes
     );
     two!(
